@@ -126,6 +126,10 @@ def zstr_method(I, s, name, args, kwargs, node):
         return r
     if name == "encode":
         return s
+    if name in ("translate", "lower", "upper", "strip", "lstrip", "rstrip", "title", "casefold", "expandtabs") :
+        # a character-wise rewrite of a symbolic string: over-approximated by an arbitrary string
+        I.ctx.notes.add("str.%s on a symbolic string over-approximated by an arbitrary string" % name)
+        return z3.String(I.ctx.fresh_name("str_" + name))
     if name == "isspace" and not args:
         from .builtins_model import str_isspace_term
         return str_isspace_term(s)
